@@ -1597,7 +1597,8 @@ class Exec:
     # ---------------------------------------------------------------- join-point merging
     def merge(self, c: Any, a: State, b: State, base_len: int) -> Optional[State]:
         """Merge the two normal continuations of an `if` (condition c holds in a, not in b)."""
-        if len(a.pc) <= base_len or len(b.pc) <= base_len or os.environ.get("PYVC_NO_MERGE"):
+        if len(a.pc) <= base_len or len(b.pc) <= base_len or os.environ.get("PYVC_NO_MERGE") \
+                or getattr(self, "no_merge", False):
             return None
         for x, y in zip(a.pc[:base_len], b.pc[:base_len]):
             if x is not y and not z3.eq(x, y):
